@@ -487,6 +487,17 @@ func genDiffTexts(seed int64, n int) []*diffCase {
 	for _, sp := range special {
 		out = append(out, &diffCase{A: sp[0], B: sp[1]})
 	}
+	// thousands of equal lines, then the only difference (no prefix of the texts decides)
+	for _, n := range []int{5200, 12000} {
+		ls := make([]string, n)
+		for i := range ls {
+			ls[i] = fmt.Sprintf("line %05d %s", i, string(rune('a'+i%26)))
+		}
+		a := strings.Join(ls, "\n")
+		ls[n-100] = "changed far down"
+		b := strings.Join(append(ls, "appended", "at the end"), "\n")
+		out = append(out, &diffCase{A: a, B: b})
+	}
 	return out
 }
 
